@@ -545,6 +545,20 @@ fn quals_step(q: &mut Qualifiers, a: &[&str]) -> Result<String, String> {
             q.clear();
             ".".to_string()
         },
+        // a collection with the same content built from scratch (and a clone): equal, same hash, cmp Equal
+        "eqf" => {
+            let fresh = Qualifiers::try_from_iter(q.iter().map(|(k, v)| (k.to_string(), v.to_string()))).map_err(|e| e.to_string())?;
+            let cl = q.clone();
+            let ok = fresh == *q
+                && !(fresh != *q)
+                && hash_of(&fresh) == hash_of(q)
+                && fresh.cmp(q) == std::cmp::Ordering::Equal
+                && fresh.partial_cmp(q) == Some(std::cmp::Ordering::Equal)
+                && cl == *q
+                && hash_of(&cl) == hash_of(q)
+                && cl.cmp(q) == std::cmp::Ordering::Equal;
+            format!("eqf:{}", tf(ok))
+        },
         "len" => {
             // capacity bookkeeping never changes the content
             let before = show_quals(q);
@@ -1205,6 +1219,11 @@ where
             b.parts.subpath = unh(arg(a, 1)?)?.as_str().into();
             StepOut::Cont(b, dot)
         },
+        // build, and go on with the result's builder (`into_builder`): the state a value carries from one build to the next
+        "rb" => match b.build() {
+            Ok(p) => StepOut::Cont(p.into_builder(), "rb".to_string()),
+            Err(e) => StepOut::Abort(e.full()),
+        },
         "pq" => {
             // a qualifier-collection step applied to the public `parts.qualifiers`; args separated by '.'
             let mut b = b;
@@ -1245,7 +1264,33 @@ where
 
 /// `build`: the script's step outputs, the build result, its string, the re-parse of that
 /// string by the type-agnostic parser, and the rebuild.
-fn op_build<T>(ty: &str, name: &str, script: &str, reparse: &dyn Fn(&str) -> String) -> Result<String, String>
+/// does the value equal (==, hash, cmp) the value parsed from its own canonical string?  T / F / D / E (does not parse)
+fn same_as_parsed<T>(p: &GenericPurl<T>, s: &str) -> &'static str
+where
+    T: FromStr + PurlShape + Clone + PartialEq + Hash + Ord,
+    <T as PurlShape>::Error: From<<T as FromStr>::Err>,
+{
+    match GenericPurl::<T>::from_str(s) {
+        Err(_) => "E",
+        Ok(q) => {
+            if q == *p && !(q != *p) && hash_of(&q) == hash_of(p) && q.cmp(p) == std::cmp::Ordering::Equal {
+                "T"
+            } else if q.to_string() == s {
+                "F" // the same canonical string, yet not the same value
+            } else {
+                "D" // a value given to the builder un-normalised: its string re-parses to the normalised value
+            }
+        },
+    }
+}
+
+fn op_build<T>(
+    ty: &str,
+    name: &str,
+    script: &str,
+    reparse: &dyn Fn(&str) -> String,
+    same: &dyn Fn(&GenericPurl<T>, &str) -> &'static str,
+) -> Result<String, String>
 where
     T: BuildShape,
     <T as PurlShape>::Error: ErrName + From<ParseError>,
@@ -1274,7 +1319,7 @@ where
     }
     if let Ok(p) = &r {
         let s1 = p.to_string();
-        write!(o, " s={} p2={}", h(&s1), reparse(&s1)).unwrap();
+        write!(o, " s={} p2={} pe={}", h(&s1), reparse(&s1), same(p, &s1)).unwrap();
         let rb = p.clone().into_builder().build();
         write!(o, " rb={}", show_res(&rb)).unwrap();
         if let Ok(q) = &rb {
@@ -1683,6 +1728,34 @@ fn op_serde(rest: &[&str]) -> Result<String, String> {
                 _ => "NA".to_string(),
             })
         },
+        // deserialize IN PLACE over an existing value (serde's `deserialize_in_place`): the result is the value the string
+        // parses to, whatever the place held before
+        "dip" => {
+            use serde::de::value::{Error as VErr, StrDeserializer};
+            use serde::Deserialize;
+            let old = unh(arg(rest, 2)?)?;
+            let new = unh(arg(rest, 3)?)?;
+            fn go<T>(old: &str, new: &str) -> String
+            where
+                T: PurlShape + Clone + FromStr,
+                <T as PurlShape>::Error: From<<T as FromStr>::Err> + std::fmt::Display,
+                for<'de> GenericPurl<T>: Deserialize<'de>,
+            {
+                let Ok(mut place) = GenericPurl::<T>::from_str(old) else {
+                    return "NOPLACE".to_string();
+                };
+                match Deserialize::deserialize_in_place(StrDeserializer::<VErr>::new(new), &mut place) {
+                    Ok(()) => format!("OK:{}", show_parts_acc(&place)),
+                    Err(e) => format!("ERR:serde:{}", h(&e.to_string())),
+                }
+            }
+            Ok(match shape {
+                "S" => go::<String>(&old, &new),
+                #[cfg(feature = "package-type")]
+                "P" => go::<PackageType>(&old, &new),
+                _ => "NA".to_string(),
+            })
+        },
         // parse a string, serialize the value, deserialize again
         "ser" => {
             let s = unh(arg(rest, 2)?)?;
@@ -1861,13 +1934,13 @@ fn dispatch(line: &str) -> Result<String, String> {
         "build" => {
             let (ty, name, script) = (arg(&t, 2)?, arg(&t, 3)?, arg(&t, 4)?);
             match arg(&t, 1)? {
-                "S" => op_build::<String>(ty, name, script, &reparse_s),
-                "CB" => op_build::<CowB>(ty, name, script, &reparse_s),
-                "CO" => op_build::<CowO>(ty, name, script, &reparse_s),
+                "S" => op_build::<String>(ty, name, script, &reparse_s, &same_as_parsed::<String>),
+                "CB" => op_build::<CowB>(ty, name, script, &reparse_s, &|_, _| "NA"),
+                "CO" => op_build::<CowO>(ty, name, script, &reparse_s, &|_, _| "NA"),
                 #[cfg(feature = "smartstring")]
-                "M" => op_build::<Small>(ty, name, script, &reparse_s),
+                "M" => op_build::<Small>(ty, name, script, &reparse_s, &same_as_parsed::<Small>),
                 #[cfg(feature = "package-type")]
-                "P" => op_build::<PackageType>(ty, name, script, &reparse_p),
+                "P" => op_build::<PackageType>(ty, name, script, &reparse_p, &same_as_parsed::<PackageType>),
                 _ => Ok("NA".to_string()),
             }
         },
